@@ -3,7 +3,7 @@ import OmbottModel.Model.Chunked
 `_body_read` and the request level of `ombott/request_pkg/body_mixin.py` on top of
 `Model/Body.lean` (Content-Length framing, accumulator) and `Model/Chunked.lean`:
 `bodyRead`, `contentLength`, `isChunked`, `raise_` (`BaseRequest._raise`), `Req.loadBody`
-(`BodyMixin._body`), `Req.body`, `Req.readCached`, `Req.getBodyString`, `errStatus` (what
+(`BodyMixin._body`), `Req.body`, `Req.getBodyString`, `Req.access` / `Req.run` (access sequences), `errStatus` (what
 `Ombott._handle` makes of an exception).  C04, C05, C13.
 -/
 namespace Ombott.Body
@@ -118,15 +118,6 @@ def Req.body (q : Req) :
   | (.error e, q') => (.error e, q')
   | (.ok sk, q') => (.ok sk, { q' with cache := some (sk, 0) })
 
-/-- `read(n)` on the buffered copy (`n = none`: to the end) -/
-def Req.readCached (q : Req) (n : Option Nat) : Option (Bytes × Req) :=
-  match q.cache with
-  | none => none
-  | some (sk, pos) =>
-    let avail := sk.body.drop pos
-    let part := match n with | some k => avail.take k | none => avail
-    some (part, { q with cache := some (sk, pos + part.length) })
-
 /-- `BodyMixin._get_body_string`
 ```
 self._body.seek(0); read = self._body.read
@@ -153,5 +144,35 @@ def Req.getBodyString (q : Req) :
         if data.length > q'.cfg.memfile then
           (.error (raise_ q'.cfg.errorsMap .bodySizeError "RequestError"), q'')
         else (.ok data, q'')
+
+/-! ### what a handler (or a hook) can do with the body, as a state machine -/
+
+/-- one access to the request body -/
+inductive Access
+  | bodyRead (n : Option Nat)   -- `request.body.read(n)`  (`none`: `read()`)
+  | bodyString                  -- `request._get_body_string()`: what `forms` / `json` start from
+  | inputRead                   -- `environ['wsgi.input'].read()` by the application itself
+  deriving Repr, DecidableEq
+
+/-- the bytes the access returns (or the exception it raises) and the request afterwards.  An
+exception may be caught by the caller, who can then go on using the same request. -/
+def Req.access (q : Req) : Access → Except Err Bytes × Req
+  | .bodyRead n =>
+    match q.body with
+    | (.error e, q') => (.error e, q')
+    | (.ok sk, q') =>          -- `body` has just rewound the buffered copy
+      let d := match n with | some k => sk.body.take k | none => sk.body
+      (.ok d, { q' with cache := some (sk, d.length) })
+  | .bodyString => q.getBodyString
+  | .inputRead =>
+    match q.cache with
+    | some (sk, pos) =>        -- `wsgi.input` is the buffered copy by now
+      (.ok (sk.body.drop pos), { q with cache := some (sk, pos + (sk.body.drop pos).length) })
+    | none =>
+      (.ok (q.input.read q.input.st.data.length).1, { q with input := (q.input.read q.input.st.data.length).2 })
+
+/-- a handler that catches every exception and carries on: the request after a sequence of
+accesses (the most permissive caller) -/
+def Req.run (q : Req) (ops : List Access) : Req := ops.foldl (fun q a => (q.access a).2) q
 
 end Ombott.Body
